@@ -487,10 +487,25 @@ def run_shard(ctx):
             at = rng.randint(1, len(h))
             note = lambda: rng.choice([None, None, "author note", "yes", "1"])  # noqa: E731
             sheets = dict(sheets)
-            sheets["survey"] = (h[:at] + [None] + h[at:], [r[:at] + [note()] + r[at:] for r in rows])
+            run = rng.choice([1, 1, 2, 19, 20, 20])  # up to 20 adjacent header-less columns do not end the sheet
+            sheets["survey"] = (h[:at] + [None] * run + h[at:], [r[:at] + [note()] + [None] * (run - 1) + r[at:] for r in rows])
             fmt = rng.choice(["xlsx", "xls"])
-            variant += f"+headerless-column:{fmt}"
+            variant += f"+headerless-column:{fmt}:{run}"
             ctx.ctr("headerless_column_cases")
+        if i % 11 == 5 and variant == "plain" and fmt == "dict":
+            # message, hint and label cells that begin with '#' ("# of children can't be < 0"), through the text containers: a cell is not a comment
+            touched = 0
+            for r_, _ in form.walk():
+                for c_ in ("constraint_message", "required_message", "hint", "label"):
+                    v_ = r_.cells.get(c_)
+                    if isinstance(v_, str) and v_ and "${" not in v_ and rng.random() < 0.7:
+                        r_.cells[c_] = "# " + v_
+                        touched += 1
+            sheets = form.to_sheets()
+            if touched and all(render.md_ok_cell(str(c)) for _, (h_, rows_) in sheets.items() for r_ in rows_ for c in r_ if c is not None):
+                fmt = rng.choice(["md", "md", "csv"])
+                variant += f"+hash-led-cells:{fmt}"
+                ctx.ctr("hash_led_cell_cases")
         check(ctx, form, common.feature_sig(form), variant, sheets, sample=(i < 2), fmt=fmt)
 
 
